@@ -551,3 +551,20 @@ def x_copy_base(I, self):
     """ExplainableObject.__copy__ (inherited): a new object of the same class holding the same value, label and source, no parents"""
     I.note_read(self)
     return new_expl(I, self.kind, self.value, self.label, source=self.source)
+
+
+# ------------------------------------------------------------------------------------------------ plain properties
+@spec("ehq", "unit")
+def ehq_unit(I, s):
+    """the unit the data is currently expressed in (read from the data at every access)"""
+    return s.value.unit
+
+
+@spec("eq", "magnitude")
+def eq_magnitude(I, s):
+    return I.expl_getattr(s, "magnitude")
+
+
+@spec("empty", "magnitude")
+def empty_magnitude(I, s):
+    return PyNum(z3.IntVal(0))
